@@ -57,10 +57,11 @@ def _run(args):
 def selftest(prop, cap=8, timeout_ms=10000, jobs=16):
   R, _ = _load(prop)
   keys = [c.key for c in R.for_prop(prop)]
-  with mp.get_context('fork').Pool(jobs) as pool:
-    site_lists = pool.map(_sites, [(prop, k, cap) for k in keys], chunksize=1)
-    work = [(p, k, i, d, timeout_ms) for lst, _ in site_lists for (p, k, i, d) in lst]
-    res = pool.map(_run, work, chunksize=1)
+  from pyvc.jobs import run_jobs          # one process per job, hard limits (a hung solver call cannot stall the self-test)
+  site_lists = run_jobs(_sites, [(prop, k, cap) for k in keys], jobs, 600, lambda job, reason, kills: ([], 0))
+  work = [(p, k, i, d, timeout_ms) for lst, _ in site_lists for (p, k, i, d) in lst]
+  res = run_jobs(_run, work, jobs, 900, lambda job, reason, kills: dict(function=job[1], mutant=job[3], status='timeout', killed=False,
+                                                                     failed=[reason[:100]], secs=0))
   # variants of one target share its source: a mutant counts as killed when ANY variant of the target rejects it
   per_fn = {}
   verdict = {}
